@@ -116,6 +116,14 @@ theorem discountComplete_sound (g : GExpr) (h : g.discountComplete = true) (d : 
   rw [inUnit_of_DiscOK d hd, ← eval_rep g h.1 d] at this
   simpa using this
 
+/-- **General characterisation of every 0/1-literal guard**: the doubles it lets through are exactly those whose order
+    class (nan, −inf, <0, 0, (0,1), 1, >1, +inf) is in the finite list `acceptedClasses g` computed by evaluation at the
+    eight representatives.  Applies to all numeric guards of the library (`all_guards_litsIn01`). -/
+theorem guard_accepts_iff (g : GExpr) (h : g.litsIn01 = true) (d : XRat) :
+    g.eval d = false ↔ cls d ∈ g.acceptedClasses := by
+  rw [eval_rep g h d]
+  simp [GExpr.acceptedClasses, mem_all]
+
 end AITB.Guard
 
 namespace AITB.MS
@@ -131,6 +139,13 @@ def nanRejectedEverywhere : Bool := discountSites.all (fun s => s.g.eval .nan)
     every setDiscount guard, nan aside, lets through exactly the interval (0,1]. -/
 theorem discount_guard_table_ok :
     discountSites.all (fun s => s.g.discountOKfinite && s.g.discountComplete) = true := by decide +kernel
+
+/-- OBLIGATION over the generated table: every translated guard of the library compares with 0 or 1 only, so the
+    eight-class analysis (`guard_accepts_iff`) decides each of them -/
+theorem all_guards_litsIn01 : AITB.Gen.Guards.sites.all (fun s => s.g.litsIn01) = true := by decide +kernel
+
+/-- observation recorded for the other properties that read this table: how many guards let nan through -/
+def nanAcceptingSites : List Site := AITB.Gen.Guards.sites.filter (fun s => !(s.g.eval .nan))
 
 theorem mem_discountSites {s : Site} (hs : s ∈ discountSites) :
     s.g.discountOKfinite = true ∧ s.g.discountComplete = true := by
